@@ -4,6 +4,9 @@ from contextlib import contextmanager
 import attr
 
 
+_NOT_SET = object()
+
+
 @attr.s(slots=True)
 class Settings:
     """
@@ -62,16 +65,17 @@ class Settings:
     def __call__(self, **options):
         current = {}
         for key, value in options.items():
-            current[key] = getattr(self, key)
+            getattr(self, key)  # raise AttributeError for unknown options
+            current[key] = getattr(self._tls, key, _NOT_SET)
             setattr(self._tls, key, value)
 
         try:
             yield
         finally:
             for key, value in current.items():
-                default = getattr(self, key)
-                if value == default:
-                    delattr(self._tls, key)
+                if value is _NOT_SET:
+                    if hasattr(self._tls, key):
+                        delattr(self._tls, key)
                 else:
                     setattr(self._tls, key, value)
 
